@@ -9,6 +9,7 @@ CONSTANTS
   Confs <- ConfsAll
   Stores <- StoresQuick
   Ancs <- AncsAll
+  SrcPorts <- SrcPortsAll
   RestoreAtTop = TRUE
-CONSTRAINTS GenDeep
+CONSTRAINTS GenDeep PortsExh
 INVARIANTS ReplyIffValid ExactlyOne ToSender ReplyHeader NeverAnswersReply BoundedTraffic HistoryIndependence StoreSane
